@@ -789,7 +789,7 @@ func ruleKeyFrame(p *Prog, r *Result) {
 			}
 		})
 	}
-	r.floor("group-key builders", n, 2)
+	r.floor("group-key builders", n, 1)
 }
 
 // isFraming: the appended operand carries a constant delimiter or a length encoding.
